@@ -810,6 +810,43 @@ func (r *Run) binopT(op token.Token, t, yt types.Type, x, y Value) Value {
 					return BoolV{C: a >= b}
 				}
 			}
+			// symbolic operands: a < b as a term; the other three follow from it
+			lt := func(a, b StrV) *Term {
+				if a.hasAtom() || b.hasAtom() {
+					return mk("str.<", sortBool, a.term(), b.term())
+				}
+				// byte strings of concrete length: lexicographic order on the bytes
+				ab, bb := a.bytesTerms(), b.bytesTerms()
+				var rec func(i int) *Term
+				rec = func(i int) *Term {
+					if i == len(ab) {
+						return mkBool(i < len(bb))
+					}
+					if i == len(bb) {
+						return mkBool(false)
+					}
+					return mkOr(mk("bvult", sortBool, ab[i], bb[i]), mkAnd(mkEq(ab[i], bb[i]), rec(i+1)))
+				}
+				return rec(0)
+			}
+			var t *Term
+			switch op {
+			case token.LSS:
+				t = lt(x, y)
+			case token.GTR:
+				t = lt(y, x)
+			case token.LEQ:
+				t = mkNot(lt(y, x))
+			default:
+				t = mkNot(lt(x, y))
+			}
+			switch t.Op {
+			case "true":
+				return BoolV{C: true}
+			case "false":
+				return BoolV{C: false}
+			}
+			return BoolV{S: t}
 		}
 		panic(unsupported("string op %v on symbolic", op))
 	case IntV:
